@@ -339,12 +339,7 @@ func runC19(c *Ctx, r *Report) {
 				continue // the wrapper: its callers are checked
 			}
 			nameArg := call.Common().Args[1]
-			ok := false
-			for _, cc := range controlling(call.Block()) {
-				if k, isCall := cc.Cond.(*ssa.Call); isCall && isCallTo(k, constantFn) && cc.Edge == 1 && sameExpr(k.Common().Args[0], nameArg) {
-					ok = true
-				}
-			}
+			ok := c.testedFalse(controlling(call.Block()), constantFn, nameArg)
 			r.Check(ok, "C19.R4", ssaFuncName(fn), "register bound to a name only if !Constant(name)", c.Pos(call.Pos()),
 				"a loop variable or integer parameter with an all-upper-case name becomes a register without the constant check: inside the body the constant evaluates to the register's value (and registers on/off disagree)")
 		}
